@@ -547,10 +547,12 @@ __gmp_doprnt (const struct doprnt_funs_t *funs, void *data,
 
               if (value == &param.width)
                 {
-                  /* negative width means left justify */
+                  /* negative width means left justify, as the - flag
+                     does (so a 0 flag is ignored) */
                   if (n < 0)
                     {
                       param.justify = DOPRNT_JUSTIFY_LEFT;
+                      param.fill = ' ';
                       n = -n;
                     }
                   param.width = n;
